@@ -25,11 +25,16 @@ PID = "C03"
 MODULE = "m03"
 NY = 3                     # size of the user type "y"
 TIDS = ["final", "mid"]
+# -g as the test-suite does, plus: local reals start as signalling NaN and using one traps, so that
+# "the generated code reads a local variable that has no value" is an observable abort instead of a
+# silent use of whatever the stack holds
+FFLAGS = ("-g", "-finit-real=snan", "-ffpe-trap=invalid")
 HEADER = ("From Coq Require Import List ZArith String Bool.\nImport ListNotations.\n"
           "From Dagrt Require Import GenLang GenC03 Lang LangCheck Builder Sched FortranTarget FortranCheck.\n"
           "Open Scope string_scope.\nOpen Scope Z_scope.\n"
           "Definition chk := chk3 lang_del_guarded lang_lhs_sub_reads lang_loop_bound_reads\n"
-          "  c03_cond_honoured c03_ite_flag_first c03_ubound_m1 c03_switch_exits c03_next_first c03_ne_fortran\n"
+          "  c03_cond_honoured c03_ite_flag_first c03_ubound_m1 c03_switch_exits c03_next_first c03_guard_outside\n"
+          "  c03_ne_fortran\n"
           "  (is_state_of state_exact state_prefixes) (is_state_of interp_keep_exact interp_keep_prefixes)\n"
           "  exec_state_token.\n")
 
@@ -108,6 +113,15 @@ def has_notnot(e):
     return any(has_notnot(c) for c in e)
 
 
+def or_under_and(e):
+    if not isinstance(e, list):
+        return False
+    if len(e) == 3 and e[0] == "nary" and e[1] == "and" and any(
+            isinstance(c, list) and len(c) == 3 and c[0] == "nary" and c[1] == "or" for c in e[2]):
+        return True
+    return any(or_under_and(c) for c in e)
+
+
 def minmax_int_arg(e, loopvars):
     """a min/max one of whose arguments is built from loop counters only"""
     if not isinstance(e, list):
@@ -126,7 +140,9 @@ def real_safe(e, loopvars):
     if k == "var":
         return e[1] not in loopvars
     if k == "nary" and e[1] in ("sum", "prod"):
-        return any(real_safe(c, loopvars) for c in e[2])
+        # pymbolic.flatten (Assign.__init__) drops the neutral element: i + 0 is i again
+        neutral = ["int", 0] if e[1] == "sum" else ["int", 1]
+        return any(real_safe(c, loopvars) for c in e[2] if c != neutral)
     if k == "if":
         return real_safe(e[2], loopvars) or real_safe(e[3], loopvars)
     if k == "pow":
@@ -242,8 +258,15 @@ def features(case):
             f.add("minmax_int")
         if has_notnot(e):
             f.add("notnot")
+        if or_under_and(e):
+            f.add("or_under_and")
     for ph in case["phases"]:
+        depth = 0
         for c in ph["prog"]:
+            if c[0] in ("if", "else"):
+                depth += 1
+            if c[0] in ("endif", "endelse"):
+                depth -= 1
             if c[0] == "if":
                 f.add("if")
             if c[0] == "else":
@@ -253,6 +276,12 @@ def features(case):
                 f.add(k[0])
                 if k[0] == "assign" and k[4]:
                     f.add("loop%d" % len(k[4]))
+                    lvs = [l[0] for l in k[4]]
+                    if depth > 0:
+                        f.add("guarded_loop")
+                        if any(not persistent(v) and v not in lvs
+                               for _, lo, hi in k[4] for v in lang_vars(lo) | lang_vars(hi)):
+                            f.add("guarded_loop_local_bound")
                 if k[0] == "assign" and k[2] is not None:
                     f.add("subscript_lhs")
                 if k[0] == "assign" and k[1].startswith("<state>") and k[3][0] != "var":
@@ -348,7 +377,7 @@ def run_fortran(case, code):
     if "error" in gen:
         return {"gen_error": gen["error"], "message": gen["message"]}
     drv = rt.make_driver(MODULE, gen, case["init"], case["nsteps"], {"y": NY})
-    res = rt.build_and_run([(MODULE + ".f90", gen["text"]), ("drv.f90", drv)])
+    res = rt.build_and_run([(MODULE + ".f90", gen["text"]), ("drv.f90", drv)], options=FFLAGS, timeout=60)
     ne_in_code = any("!=" in ln for ln in gen["text"].splitlines() if not ln.lstrip().startswith("! "))
     out = {"symbols": [list(s) for s in gen["symbols"]], "phases": gen["phases"], "time_ids": gen["time_ids"],
            "ne_in_code": ne_in_code,
@@ -360,7 +389,8 @@ def run_fortran(case, code):
         for k in list(st):
             if is_ret(k) and isinstance(st[k], str) and st[k].lower().startswith("nan"):
                 st[k] = None            # slot still holds the NaN written by initialize
-    out.update(run_rc=res["run_rc"], stderr=res["stderr"], steps=steps, done=done)
+    out.update(run_rc=res["run_rc"], stderr=res["stderr"], steps=steps, done=done,
+               trapped=bool(res["run_rc"] not in (0, None) and "SIGFPE" in res["stderr"]))
     return out
 
 
@@ -408,7 +438,8 @@ def oracle(case, res):
         return None
     if len(f["steps"]) != len(i["steps"]) or not f["done"] or f["run_rc"] != 0:
         return {"kind": "termination_differs", "interpreter": i["end"], "fortran_calls": len(f["steps"]),
-                "interpreter_steps": len(i["steps"]), "fortran_rc": f["run_rc"], "fortran_stderr": f["stderr"][:300]}
+                "interpreter_steps": len(i["steps"]), "fortran_rc": f["run_rc"], "fortran_stderr": f["stderr"][:300],
+                "fortran_trapped": f.get("trapped", False)}
     if f["stderr"].strip():
         return {"kind": "runtime_stderr", "stderr": f["stderr"][:600]}
     return None
@@ -449,8 +480,8 @@ def classify(case, o):
         return "double_negation_not_fortran"
     if o["kind"] == "compile_error" and "ne" in feats and o.get("ne_in_code"):
         return "ne_not_fortran"
-    if o["kind"] == "state_differs" and "cond_expr" in feats:
-        return "conditional_expression_else"
+    if o["kind"] == "termination_differs" and o.get("fortran_trapped") and "guarded_loop_local_bound" in feats:
+        return "guard_inside_loops_unset_bound"
     return o["kind"]
 
 
@@ -488,6 +519,8 @@ def steps_to_coq(steps, univ):
 def end_to_coq(end):
     if end[0] == "halt":
         return "(XHalt %s)" % lang.coq_str(end[1])
+    if end[0] == "abort":
+        return "XAbort"
     return "XDone"
 
 
@@ -512,6 +545,8 @@ def case_term(case, res):
             return None
     if compiles and i["end"][0] == "halt":
         fend = ["halt", i["end"][1]] if i["end"][1] in f.get("stderr", "") else ["done"]
+    elif compiles and f.get("trapped"):
+        fend = ["abort"]            # died in call len(fsteps)+1: the model must call that call undefined
     else:
         fend = ["done"]
     init = {}
@@ -544,6 +579,7 @@ class PGen:
         self.use_y = rng.random() < 0.7
         self.use_arr = rng.random() < 0.65
         self.use_bool = rng.random() < 0.4
+        self.use_gl = rng.random() < 0.35     # a guarded loop whose bound is assigned under the same guard
         n = rng.choice([1, 1, 2, 2, 3])
         self.names = ["pa", "pb", "pc"][:n]
 
@@ -579,7 +615,8 @@ class PGen:
             args = [a if real_safe(a, lvs) else ["nary", "sum", [a, ["int", r.choice([1, 2])]]] for a in args]
             return ["nary", r.choice(["min", "max"]), args]
         if c < 0.64 and "cond_expr" in self.allow:
-            return ["if", self.boolean(d - 1, scope), self.num(d - 1, scope), self.num(d - 1, scope)]
+            cnd = self.nested_bool(scope) if r.random() < 0.4 else self.boolean(d - 1, scope)
+            return ["if", cnd, self.num(d - 1, scope), self.num(d - 1, scope)]
         if c < 0.76 and scope["arr"]:
             return ["bin", "sub", ["var", r.choice(scope["arr"])], self.index(scope)]
         if c < 0.86:
@@ -624,6 +661,32 @@ class PGen:
             return ["nary", r.choice(["and", "or"]), [self.boolean(d - 1, scope) for _ in range(r.randint(2, 3))]]
         return ["bin", r.choice(ops), self.num(d - 1, scope), self.num(d - 1, scope)]
 
+    def batom(self, scope):
+        """a comparison of small sums whose truth value changes from step to step, or a flag"""
+        r = self.r
+        if self.use_bool and r.random() < 0.25:
+            return ["var", "<p>f"]
+        ops = ["lt", "le", "gt", "ge", "eq"] + (["ne"] if "ne" in self.allow else [])
+        lhs = r.choice([["var", r.choice(PS)], ["nary", "sum", [["var", r.choice(PS)], ["var", r.choice(PS + ["<t>"])]]],
+                        ["nary", "sum", [["var", r.choice(PS)], ["int", r.randint(-2, 2) or 1]]]])
+        rhs = r.choice([["int", r.randint(-1, 6)], ["var", r.choice(PS)],
+                        ["nary", "sum", [["var", r.choice(PS)], ["int", r.randint(-3, 3) or 2]]]])
+        return ["bin", r.choice(ops), lhs, rhs]
+
+    def nested_bool(self, scope):
+        """and / or / not nested directly inside each other (precedence and parenthesisation of the printer)"""
+        r = self.r
+        A, B, C, D = (self.batom(scope) for _ in range(4))
+        AND = lambda *a: ["nary", "and", list(a)]
+        OR = lambda *a: ["nary", "or", list(a)]
+        NOT = lambda a: ["not", a]
+        shapes = [AND(A, OR(B, C)), AND(OR(A, B), C), OR(AND(A, B), C), OR(A, AND(B, C)),
+                  NOT(AND(A, B)), NOT(OR(A, B)), AND(NOT(OR(A, B)), C), OR(NOT(AND(A, B)), C),
+                  AND(A, OR(B, AND(C, D))), OR(A, AND(B, OR(C, D))), AND(OR(A, B), OR(C, D)),
+                  OR(AND(A, B), AND(C, D)), AND(A, NOT(B), OR(C, D)), OR(A, NOT(AND(B, NOT(C)))),
+                  AND(A, AND(B, OR(C, D))), OR(OR(A, B), AND(C, D)), NOT(AND(A, OR(B, C)))]
+        return r.choice(shapes)
+
     # ---- statements
     def loops(self, scope, for_index):
         r = self.r
@@ -638,6 +701,8 @@ class PGen:
             else:
                 lo = r.choice([0, 0, 1])
                 hi = r.randint(lo + (0 if "zero_trip" in self.allow and r.random() < 0.2 else 1), lo + 3)
+                if "zero_trip" in self.allow and r.random() < 0.08:
+                    hi = lo - r.randint(1, 2)           # negative range
                 los, his = ["int", lo], ["int", hi]
                 c = r.random()
                 if k == 1 and c < 0.4:
@@ -704,8 +769,22 @@ class PGen:
         if c < 0.86:
             return [["stmt", ["assign", "<t>", None, ["nary", "sum", [["var", "<t>"], ["var", "<dt>"]]], []]]]
         if c < 0.92 and self.use_bool:
-            return [["stmt", ["assign", "<p>f", None, self.boolean(2, scope), []]]]
+            return [["stmt", ["assign", "<p>f", None,
+                              self.nested_bool(scope) if r.random() < 0.6 else self.boolean(2, scope), []]]]
         return [["stmt", ["assign", r.choice(PS), None, self.clamp(self.num(2, scope), scope), []]]]
+
+    def guarded_loop(self, scope):
+        """with if_(c): m <- small value in -1..3;  x <- x + ... [i = lo..m]   (m has no value while c is false)"""
+        r = self.r
+        x = r.choice(PS)
+        bound = ["nary", "min", [["nary", "max", [self.num(1, scope), ["int", -1]]], ["int", 3]]]
+        lo = r.choice([0, 0, 1])
+        sc = dict(scope, loops=[("i", lo, 3)])
+        rhs = self.clamp(["nary", "sum", [["var", x], self.num(1, sc)]], sc)
+        return [["if", self.boolean(1, scope)],
+                ["stmt", ["assign", "m", None, bound, []]],
+                ["stmt", ["assign", x, None, rhs, [["i", ["int", lo], ["var", "m"]]]]],
+                ["endif"]]
 
     def control(self):
         r = self.r
@@ -738,11 +817,11 @@ class PGen:
                 prog.append(["stmt", ["assign", "<p>a", None, ["var", "a"], []]])
                 scope["arr"], scope["warr"] = ["<p>a"], ["<p>a"]
         n = r.randint(3, 8)
-        depth, can_else, stack = 0, False, []
+        depth, can_else, stack, gl_done = 0, False, [], False
         while n > 0:
             c = r.random()
             if c < 0.16 and depth < 2:
-                prog.append(["if", self.boolean(1, scope)])
+                prog.append(["if", self.nested_bool(scope) if r.random() < 0.5 else self.boolean(1, scope)])
                 stack.append("if")
                 depth += 1
                 can_else = False
@@ -761,6 +840,10 @@ class PGen:
                 prog.append(self.control())
                 can_else = False
                 n -= 1
+            elif c < 0.53 and depth < 2 and self.use_gl and not gl_done:
+                prog.extend(self.guarded_loop(scope))
+                can_else, gl_done = True, True
+                n -= 2
             else:
                 prog.extend(self.stmts(scope, depth == 0))
                 if depth == 0:
@@ -847,8 +930,10 @@ def well_formed(case):
     written, read = set(), set()
     names = {ph["name"] for ph in case["phases"]}
     for ph in case["phases"]:
-        local_def, depth = set(), 0
+        defs, depth = [set()], 0
+        local_def = set()
         for c in ph["prog"]:
+            local_def = set().union(*defs)
             if c[0] in ("if", "else"):
                 if c[0] == "if":
                     used = lang_vars(c[1])
@@ -856,8 +941,10 @@ def well_formed(case):
                     if any(not persistent(v) and v not in local_def for v in used):
                         return False
                 depth += 1
+                defs.append(set())
             elif c[0] in ("endif", "endelse"):
                 depth -= 1
+                defs.pop()
             else:
                 k = c[1]
                 lvs = set(l[0] for l in k[4]) if k[0] == "assign" else set()
@@ -883,8 +970,7 @@ def well_formed(case):
                     return False
                 ws = [k[1]] if k[0] == "assign" and k[2] is None else (list(k[1]) if k[0] == "call" else [])
                 written |= set(ws)
-                if depth == 0:
-                    local_def |= set(ws)
+                defs[-1] |= set(ws)
     return all(v in written for v in read if persistent(v) and v not in ("<t>", "<dt>")) and \
         case["initial"] in names and all(ph["next"] in names for ph in case["phases"])
 
@@ -962,6 +1048,175 @@ def shrink(case, cls, budget=60):
     return case
 
 
+# ------------------------------------------------------------------ logical operators: printer vs model
+# trees: ["atom", n] | ["not", t] | ["and", [t...]] | ["or", [t...]]
+
+HEADER_P = ("From Coq Require Import List Arith Bool.\nImport ListNotations.\n"
+            "From Dagrt Require Import GenC03 FortranPrinter.\n"
+            "Definition chkp (c : bexp * list tok) : bool :=\n"
+            "  wf (fst c) && toks_eqb (bprint c03_prec_or_child c03_prec_or_own c03_prec_and_child c03_prec_and_own\n"
+            "                                 c03_prec_not_child c03_prec_not_own 0 (fst c)) (snd c).\n")
+
+
+def bt_to_pym(t):
+    import pymbolic.primitives as p
+    if t[0] == "atom":
+        return p.Variable("b%d" % t[1])
+    if t[0] == "not":
+        return p.LogicalNot(bt_to_pym(t[1]))
+    return (p.LogicalAnd if t[0] == "and" else p.LogicalOr)(tuple(bt_to_pym(c) for c in t[1]))
+
+
+def bt_to_coq(t):
+    if t[0] == "atom":
+        return "(BAtom %d)" % t[1]
+    if t[0] == "not":
+        return "(BNot %s)" % bt_to_coq(t[1])
+    return "(%s [%s])" % ("BAnd" if t[0] == "and" else "BOr", "; ".join(bt_to_coq(c) for c in t[1]))
+
+
+def bt_eval(t, v):
+    if t[0] == "atom":
+        return v[t[1]]
+    if t[0] == "not":
+        return not bt_eval(t[1], v)
+    vals = [bt_eval(c, v) for c in t[1]]
+    return all(vals) if t[0] == "and" else any(vals)
+
+
+def bt_atoms(t):
+    if t[0] == "atom":
+        return {t[1]}
+    if t[0] == "not":
+        return bt_atoms(t[1])
+    return set().union(*[bt_atoms(c) for c in t[1]])
+
+
+def bt_size(t):
+    if t[0] == "atom":
+        return 1
+    if t[0] == "not":
+        return 1 + bt_size(t[1])
+    return 1 + sum(bt_size(c) for c in t[1])
+
+
+def bt_print(t):
+    """the REAL printer on the tree -> (text, tokens)"""
+    from dagrt.codegen.expressions import FortranExpressionMapper
+
+    class Names(dict):
+        def __getitem__(self, k):
+            return k
+    text = FortranExpressionMapper(Names())(bt_to_pym(t))
+    toks = text.replace("(", " ( ").replace(")", " ) ").split()
+    return text, toks
+
+
+def toks_to_coq(toks):
+    out = []
+    for w in toks:
+        out.append({"(": "TLP", ")": "TRP", ".and.": "TAnd", ".or.": "TOr", ".not.": "TNot"}.get(w)
+                   or "TAtom %d" % int(w[1:]))
+    return "[%s]" % "; ".join(out)
+
+
+def bt_oracle(t):
+    """Fortran gives .not. > .and. > .or. the precedence Python gives not > and > or: evaluate the printed text
+    with Python's parser for every valuation of the atoms and compare with the tree."""
+    import itertools
+    try:
+        text, toks = bt_print(t)
+    except Exception as ex:  # noqa: BLE001
+        return {"kind": "printer_raises", "exception": type(ex).__name__}, None
+    pyt = " ".join({".and.": "and", ".or.": "or", ".not.": "not"}.get(w, w) for w in toks)
+    atoms = sorted(bt_atoms(t))
+    for bits in itertools.product((False, True), repeat=len(atoms)):
+        v = dict(zip(atoms, bits))
+        try:
+            got = eval(pyt, {"__builtins__": {}}, {"b%d" % n: b for n, b in v.items()})
+        except SyntaxError:
+            return {"kind": "printed_text_not_an_expression", "text": text}, toks
+        if got != bt_eval(t, v):
+            return {"kind": "printed_text_means_something_else", "text": text,
+                    "valuation": {"b%d" % n: b for n, b in v.items()}, "tree_value": bt_eval(t, v),
+                    "value_of_text_with_fortran_precedence": got}, toks
+    return None, toks
+
+
+def bt_cases(tier, seed):
+    """all trees with at most 3 (thorough: 4) operators over 2-ary and/or and not (no not-not), atoms numbered
+    left to right, plus random trees with 2-3-ary operators"""
+    def relabel(t, ctr):
+        if t[0] == "atom":
+            ctr[0] += 1
+            return ["atom", ctr[0] - 1]
+        if t[0] == "not":
+            return ["not", relabel(t[1], ctr)]
+        return [t[0], [relabel(c, ctr) for c in t[1]]]
+
+    memo = {}
+
+    def trees(n):          # n operators
+        if n in memo:
+            return memo[n]
+        out = []
+        if n == 0:
+            out = [["atom", 0]]
+        else:
+            for t in trees(n - 1):
+                if t[0] != "not":
+                    out.append(["not", t])
+            for a in range(n):
+                for l in trees(a):
+                    for r_ in trees(n - 1 - a):
+                        out.append(["and", [l, r_]])
+                        out.append(["or", [l, r_]])
+        memo[n] = out
+        return out
+    cases = []
+    for n in range(1, (3 if tier == "quick" else 4) + 1):
+        cases += [relabel(t, [0]) for t in trees(n)]
+    rng = random.Random(seed * 7 + 33)
+
+    def rnd(d, top=True):
+        c = rng.random()
+        if d <= 0 or (c < 0.25 and not top):
+            return ["atom", rng.randint(0, 4)]
+        if c < 0.4:
+            t = rnd(d - 1, False)
+            return t if t[0] == "not" else ["not", t]
+        return [rng.choice(["and", "or"]), [rnd(d - 1, False) for _ in range(rng.randint(2, 3))]]
+    for _ in range(150 if tier == "quick" else 1500):
+        cases.append(rnd(rng.randint(2, 4)))
+    return cases
+
+
+def check_printer(rep, tier, seed):
+    """returns coverage dict; reports a violation with the smallest failing tree"""
+    cases = bt_cases(tier, seed)
+    worst, terms = None, []
+    for t in cases:
+        o, toks = bt_oracle(t)
+        if o is not None and (worst is None or bt_size(t) < bt_size(worst[0])):
+            worst = (t, o)
+        if toks is not None:
+            terms.append("(%s, %s)" % (bt_to_coq(t), toks_to_coq(toks)))
+    if worst is not None:
+        rep.violation({"what": "FortranExpressionMapper prints a tree of logical operators as text that Fortran reads "
+                               "as a different expression (or not as an expression)",
+                       "class": "logical_printing", "btree": worst[0], "oracle": worst[1],
+                       "replay": "./check C03 --replay <this file>"})
+    mism, n_eval, errors = [], 0, []
+    if os.path.exists(os.path.join(common.COQ, "model", "FortranPrinter.vo")) and \
+            os.path.exists(os.path.join(common.COQ, "gen", "GenC03.vo")):
+        mism, n_eval, errors = common.eval_cases(PID + "P", HEADER_P, terms, "chkp", shard=400)
+    else:
+        errors = ["printer model not built"]
+    return {"trees": len(cases), "oracle_failures": 0 if worst is None else 1, "compared_with_model": n_eval,
+            "model_disagreements": len(mism), "errors": errors[:2],
+            "first_disagreeing_tree": cases[mism[0]] if mism and mism[0] < len(cases) else None}
+
+
 # ------------------------------------------------------------------ the check
 
 def _short(o):
@@ -1006,7 +1261,7 @@ def main(tier):
         if cls in known:
             rep.known_finding(known[cls].get("what_fails", cls))
             continue
-        small = shrink(strip(case), cls, budget=40 if tier == "quick" else 120)
+        small = shrink(strip(case), cls, budget=80 if tier == "quick" else 160)
         res2 = run_case(small)
         o2 = oracle(small, res2) or o
         rep.violation({"what": "the module emitted by the Fortran code generator does not compile, or the compiled "
@@ -1030,11 +1285,13 @@ def main(tier):
         mism = [term_idx[i] for i in mism]
     else:
         errors = ["model not built"]
-    tie_broken = bool(mism or errors)
+    pr = check_printer(rep, tier, seed)
+    tie_broken = bool(mism or errors or pr["model_disagreements"] or pr["errors"])
     if (not ps["ok"] or tie_broken) and not rep.violations:
         detail = {"what": "proof obligation or model/implementation correspondence no longer checks; "
                           "no failing input found by the implementation-level oracle",
-                  "proof_stage": ps, "coq_errors": errors[:3], "n_disagreements": len(mism)}
+                  "proof_stage": ps, "coq_errors": errors[:3], "n_disagreements": len(mism),
+                  "logical_printing": pr}
         if mism:
             case, res = cases[mism[0]], results[mism[0]]
             detail["first_disagreeing_case"] = {"case": strip(case), "fortran": res.get("fortran"),
@@ -1062,6 +1319,7 @@ def main(tier):
         calls_compared_fortran_vs_interpreter=compared_steps, skipped_interpreter_raised=skipped,
         traces_validated_against_impl=n_eval, model_impl_disagreements=len(mism),
         cases_outside_model=len(cases) - len(terms),
+        logical_printing=pr,
         input_distribution={"corpus": n_corpus, "random": len(cases) - n_corpus, "features": feat_hist,
                             "phases": {str(k): sum(1 for c in cases if len(c["phases"]) == k) for k in (1, 2, 3)},
                             "calls": {str(k): sum(1 for c in cases if c["nsteps"] == k) for k in (1, 2, 3, 4)}},
@@ -1083,6 +1341,10 @@ def main(tier):
 
 def replay(path):
     r = json.load(open(path))
+    if "btree" in r:
+        o, toks = bt_oracle(r["btree"])
+        print(json.dumps({"tree": r["btree"], "printed": " ".join(toks or []), "oracle": o}, indent=1))
+        return 1 if o is not None else 0
     case = r.get("case") or (r.get("first_disagreeing_case") or {}).get("case")
     if case is None and "phases" in r:
         case = strip(r)
